@@ -72,6 +72,12 @@ func (p *ResetProcessor) resolveReset(node *yaml.Node, path tree.Path) (*yaml.No
 		return p.resolveReset(node.Alias, path)
 	}
 
+	if node.Kind == yaml.ScalarNode && node.Tag == "!!timestamp" {
+		// the compose model has no timestamp type: an unquoted date is a string, which is also what the JSON
+		// schema validation takes it for. Decoded as time.Time it passes validation and then meets code that
+		// expects the string it was validated as.
+		node.Tag = "!!str"
+	}
 	if node.Tag == "!reset" {
 		p.paths = append(p.paths, path)
 		return nil, nil
